@@ -49,12 +49,19 @@ pub fn where_holds(name: &str, case: &Case, v: &Violation) -> bool {
     match name {
         "any" => true,
         // an op after a completed LinearSatUnsat optimisation fails
-        "after-sat-unsat-optimise" => case.ops[..v.op_index.min(case.ops.len())].iter().any(|o| matches!(o, Op::Optimise { sat_unsat: true, .. })),
+        // (the bounds oracle runs after each op, so a bounds report at the optimisation itself is
+        // "after" it as well; the optimisation's own result is not)
+        "after-sat-unsat-optimise" => {
+            case.ops[..v.op_index.min(case.ops.len())].iter().any(|o| matches!(o, Op::Optimise { sat_unsat: true, .. }))
+                || (v.class.starts_with("I-BOUNDS") && matches!(case.ops.get(v.op_index), Some(Op::Optimise { sat_unsat: true, .. })))
+        }
         // the failing op itself is a LinearSatUnsat optimisation that follows an interrupted one
         "sat-unsat-resumed" => {
             matches!(case.ops.get(v.op_index), Some(Op::Optimise { sat_unsat: true, .. }))
                 && case.ops[..v.op_index].iter().any(|o| matches!(o, Op::Optimise { sat_unsat: true, interrupt: Some(_), .. }))
         }
+        "nolearning-with-assumptions" => !case.knobs.uip && case.ops.iter().any(|o| matches!(o, Op::Assume { .. } | Op::Optimise { sat_unsat: false, .. })),
+        "assume-with-core" => matches!(case.ops.get(v.op_index), Some(Op::Assume { core: true, .. })),
         "element-alias" => any_con(case, &|c| matches!(c.base(), Con::Element(..)) && c.base().has_alias()),
         "alias" => any_con(case, &|c| c.has_alias()),
         "cumulative" => any_con(case, &|c| matches!(c.base(), Con::Cumulative { .. })),
